@@ -253,7 +253,7 @@ REG = {
     technique="integer/rational TLA+ specification of Round, the comparison helpers and the VSH coefficient tables (TLC exhaustive with a completeness law), replay of exported cases, trace validation of harmonic identities for every (l,m) and of recorded relations"),
  "C11": dict(
     engine="spec/NelderMead.tla, MC_NelderMead.tla, Brent.tla, BrentCore.tla, Bracket.tla, MC_Bracket.tla, Trace_Min.tla (2 cfgs), Trace_Bracket.tla, Trace_FindMin.tla, Trace_NM.tla, "
-           "proofs/Bracket_Proof.tla, proofs/Brent_Proof.tla (TLAPS), Rat.tla; harness/c11.cpp",
+           "proofs/Bracket_Proof.tla, proofs/Brent_Proof.tla (TLAPS), apalache/Bracket_Ind.tla (Apalache), Rat.tla; harness/c11.cpp",
     design_ref="DESIGN.md §4.11",
     text="NelderMead.tla transcribes Minimization::minimize in exact rational arithmetic (ranking with the code's tie rules, fractional-range test, amotry with factors -1, 2, 1/2 and "
          "its acceptance test, shrink, psum maintenance, nfunc accounting, final swap); on integer quadratics from integer simplices every quantity is dyadic, so the model follows the "
